@@ -58,6 +58,8 @@ var c20Args = []akind{
 	{"array", `[1,"a"]`}, {"object", `{"k":1}`}, {"function", "$sum"}, {"missing", "nothing"}, {"big", "300"},
 	// a function that went through a library function and is held by value
 	{"function-by-value", "$distinct([$sum])[0]"},
+	// an array as a library function builds it (a []string)
+	{"library-array", `$split("p,q", ",")`},
 }
 
 // describe renders a recorded Go argument.
@@ -129,7 +131,7 @@ func describe(v reflect.Value) string {
 // for an argument type error.
 func convert(a akind, t reflect.Type) (string, bool) {
 	raw := map[string]string{"number": "float64:7", "fraction": "float64:2.5", "int": "int:3", "string": "string:str", "boolean": "bool:true",
-		"array": `slice:[1,"a"]`, "object": `map:{"k":1}`, "function": "callable", "function-by-value": "callable", "big": "float64:300"}[a.Name]
+		"array": `slice:[1,"a"]`, "object": `map:{"k":1}`, "function": "callable", "function-by-value": "callable", "library-array": `slice:["p","q"]`, "big": "float64:300"}[a.Name]
 	num := a.Name == "number" || a.Name == "fraction" || a.Name == "int" || a.Name == "big"
 	numVal := map[string]float64{"number": 7, "fraction": 2.5, "int": 3, "big": 300}[a.Name]
 	if a.Name == "missing" {
@@ -177,7 +179,7 @@ func convert(a akind, t reflect.Type) (string, bool) {
 			return "[]byte:str", true
 		}
 	case tSlice:
-		if a.Name == "array" {
+		if a.Name == "array" || a.Name == "library-array" {
 			return raw, true
 		}
 	case tMap:
